@@ -508,7 +508,7 @@ def isotope_selection(ctx, rep, clause):
                 src = v.value.id if isinstance(v, ast.Subscript) and isinstance(v.value, ast.Name) and \
                     isinstance(v.slice, ast.Constant) and v.slice.value == 0 else None
                 good = src is not None and sorted_vars.get(src, (False, None))[0] and \
-                    sorted_vars[src][1].lineno < node.lineno
+                    sorted_vars[src][1].order < node.order
                 ob(rep, 'SIB-isotope-order', f.fq, f'the isotope that keys the table (`{c.text(node.value)[:60]}`) is the '
                    f'most abundant one', good,
                    'first element after sorting by isotopic_composition, descending',
